@@ -3,7 +3,8 @@ import Norad.Model.C07
 import Norad.Spec.C07
 /-! Driver module for C07:
 `C07 <pre> <suf> <name> <upper> <lowmap> <mode> => ok <result> <n>:<calls> | panic <n>:<calls> | panic-other ..`
-(see `harness/src/c07.rs`).  `U` and `lower` are instantiated from the tables on the line. -/
+(see `harness/src/c07.rs`).  `U` and `lower` are instantiated from the tables on the line (names with
+capital sigma: `lower` from the whole-string lower-casings the closure really saw). -/
 namespace Driver.C07
 open Proto _root_.C07
 
@@ -64,7 +65,25 @@ def run (inp obs : List String) : Verdict :=
         match lowMap.find? (·.1 == c) with
         | some (_, l) => l
         | none => [c]
-      let lower : Str → Str := fun s => s.flatMap lowerChar
+      -- `str::to_lowercase` is the per-character map except for capital sigma, which becomes final
+      -- sigma depending on its context.  `lower` is therefore instantiated from what was REALLY offered:
+      -- the whole-string lower-casings the closure saw (echoed on the line), looked up modulo the two
+      -- lower-case sigmas; a string that is not among them (or an observed string that is not a
+      -- lowering of it up to the sigma form) falls back to the per-character map.
+      let lowerPC : Str → Str := fun s => s.flatMap lowerChar
+      let sig : Str → Str := fun s => s.map fun c => if c == 'ς' then 'σ' else c
+      let obsCalls : List Str := match obs with
+        | ["ok", _, cT] => (parseCalls cT).getD []
+        | [_, cT] => (parseCalls cT).getD []
+        | _ => []
+      let obsTable : List (Str × Str) := obsCalls.map fun l => (sig l, l)
+      let hasSigma := name.any (· == 'Σ')
+      let lower : Str → Str := fun s =>
+        let pc := lowerPC s
+        if !hasSigma then pc else
+        match obsTable.find? (·.1 == sig pc) with
+        | some (_, l) => l
+        | none => pc
       let accept := acceptOf mode
       -- model
       let res := userNameToFileName U lower name pre suf accept
@@ -87,7 +106,7 @@ def run (inp obs : List String) : Verdict :=
           | some r, some calls =>
             let n := calls.length
             let last := calls.getLast?.getD []
-            let dotsp := (name.take 248).all isDotSp
+            let dotsp := (takeBytes 248 name).all isDotSp   -- exact guard, `fileName_affixes_layer_iff`
             let feat (fs : List (Bool × String)) : String :=
               let on := (fs.filter (·.1)).map (·.2)
               if on.isEmpty then "" else ":" ++ ",".intercalate on
@@ -141,6 +160,8 @@ def run (inp obs : List String) : Verdict :=
         (if name.any (fun c => U c && c.utf8Size > 1) then ["upper-nonascii"] else []) ++
         (if name.any (fun c => (lowerChar c).length > 1 || usize (lowerChar c) != c.utf8Size)
           then ["lower-resizes"] else []) ++
+        (if hasSigma then ["capital-sigma"] else []) ++
+        (if hasSigma && mcalls.any (fun l => l.any (· == 'ς')) then ["final-sigma"] else []) ++
         (if !valid then ["invalid-name"] else []) ++
         (if r0 != pre ++ name || r1 != r0 || clipped || b != r2 || ncalls > 1 then ["nt"] else [])
       { agree := modelOut == implOut, spec := spec, tags := tags, model := modelOut }
